@@ -179,6 +179,31 @@ func VerifC09Cleanup() {
 	}
 }
 
+// VerifC09ConcurrentRefill: an exhausted bucket with exactly k refill periods
+// elapsed (k = 1..2, max 3) and n concurrent requests of that client: exactly
+// min(n, k) are admitted - the elapsed period is credited once, however the
+// requests interleave around the refill.
+func VerifC09ConcurrentRefill(n int) {
+	refill := time.Second
+	rl := verifLimiter(3, refill)
+	k := verifrt.IntRange("elapsedPeriods", 1, 2)
+	rl.buckets.Store("c", &bucket{tokens: 0, lastRefill: verifrt.Now().Add(-time.Duration(k) * refill)})
+	var admitted int32
+	for i := 0; i < n; i++ {
+		verifrt.Go(func() {
+			if rl.Allow("c") {
+				atomic.AddInt32(&admitted, 1)
+			}
+		})
+	}
+	verifrt.WaitAll()
+	want := n
+	if k < n {
+		want = k
+	}
+	verifrt.Assert(int(atomic.LoadInt32(&admitted)) == want, "concurrent requests around a refill: the elapsed periods are credited exactly once")
+}
+
 // VerifC09ManyClients: n clients with exhausted buckets used within the last
 // hour; a cleanup pass keeps every one of them (a client whose bucket is
 // dropped would get a fresh burst), whatever the size of the table.
